@@ -296,6 +296,51 @@ async def upload_then_halfclose(out, ports, late_port, T, cfgname, io_name):
         c.close()
 
 
+async def stream_after_eof_handler(r, w, origin, info):
+    """reads until EOF, then streams one record every 0.5 s for 7 s (longer than the 4 s period it is used with), then closes"""
+    while True:
+        b = await r.read(65536)
+        if not b:
+            break
+    for i in range(14):
+        w.write(b"chunk-%02d;" % i)
+        await w.drain()
+        await asyncio.sleep(0.5)
+    w.close()
+
+
+async def halfclose_then_stream(out, ports, stream_port, T, cfgname, io_name):
+    """the client sends its request and half-closes; the origin then streams for longer than the period: data keeps flowing in one
+    direction, so at no moment has the tunnel been idle for T - it must live until the origin is done"""
+    out.case()
+    who = "http/halfclose-then-stream cfg=%s io=%s" % (cfgname, io_name)
+    try:
+        c = await open_conn("127.0.0.1", ports["http"])
+        st, _ = await http_connect(c, "127.0.0.1", stream_port)
+        assert st == 200
+    except Exception as e:
+        out.inconclusive += 1
+        return
+    try:
+        c.write(b"request")
+        await c.drain()
+        c.eof()
+        t0 = now()
+        try:
+            got = await c.read_all(timeout=7 + T + 3)
+        except Exception:
+            got = b""
+        out.nontrivial(("http", "halfclose-then-stream", cfgname, io_name))
+        want = b"".join(b"chunk-%02d;" % i for i in range(14))
+        if got != want:
+            out.violation("tunnel closed for idleness although data was relayed less than the period ago",
+                          {"who": who, "period_s": T, "pattern": "client half-closes, origin streams a record every 0.5 s for 7 s", "records_received": got.count(b";"), "records_sent": 14, "ended_after_s": round(now() - t0, 2)})
+        else:
+            out.count("streams_after_halfclose_complete")
+    finally:
+        c.close()
+
+
 async def stalled_log_scenario(out, args, wd, oport):
     """the activity stamps must not depend on housekeeping that can block: with an access-log sink that stalled (a FIFO whose
     reader never drains it) and the collector busy with hundreds of ended connections, a tunnel that carries a byte every second
@@ -426,15 +471,18 @@ async def main(args):
                 return
             await scenario(out, A, ports, origin.port, uport, kind, p, T, cname, io_name)
         late = await TcpOrigin(late_reply_handler, host="127.0.0.1").start()
+        streamer = await TcpOrigin(stream_after_eof_handler, host="127.0.0.1").start()
         extra = []
         seen_cfg = set()
         for (A, ports, kind, p, T, cname, io_name) in jobs:
             if cname == "idle4-udp2" and (cname, io_name) not in seen_cfg:
                 seen_cfg.add((cname, io_name))
                 extra.append(upload_then_halfclose(out, ports, late.port, 4, cname, io_name))
+                extra.append(halfclose_then_stream(out, ports, streamer.port, 4, cname, io_name))
         extra.append(stalled_log_scenario(out, args, wd, origin.port))
         await asyncio.gather(*([run(j) for j in jobs] + extra))
         await late.stop()
+        await streamer.stop()
         for p in procs:
             if not p.alive():
                 out.violation("proxy process died", {"proxy": p.name, "rc": p.exit_status(), "stderr": p.stderr_tail(600)})
